@@ -685,6 +685,9 @@ class Fxp():
         elif isinstance(val, (int, float, complex)):
             vdtype = type(val)
 
+            if isinstance(val, int) and not -2**63 <= val < 2**63:
+                val = np.array(val, dtype=object)   # keep python integer beyond the int64 range
+
         elif isinstance(val, (np.ndarray, np.generic)):
             if isinstance(val, object):
                 vdtype = type(val.item(0))
@@ -847,7 +850,15 @@ class Fxp():
         if original_vdtype != complex and not np.issubdtype(original_vdtype, np.complexfloating):
             # val_dtype determination
             _n_word_max_ = min(_n_word_max, 64)
-            if np.max(val) >= 2**_n_word_max_ or np.min(val) < -2**_n_word_max_ or self.n_word >= _n_word_max_:
+            # integer inputs whose scaled value does not fit the 64 bits machine integers are processed as python integers
+            _big_int = False
+            if val.dtype.kind in 'iuO' and val.size > 0 and isinstance(conv_factor, int):
+                _int_limit = 2**(_n_word_max_ - 1)
+                _int_max, _int_min = int(np.max(val)), int(np.min(val))
+                # (unsigned 64 bits arrays beyond the int64 range keep their two's complement meaning)
+                if not (val.dtype.kind == 'u' and _int_max >= _int_limit):
+                    _big_int = _int_max * conv_factor >= _int_limit or _int_min * conv_factor < -_int_limit
+            if _big_int or np.max(val) >= 2**_n_word_max_ or np.min(val) < -2**_n_word_max_ or self.n_word >= _n_word_max_:
                 val_dtype = object
                 val = val.astype(object)
             else:
